@@ -227,7 +227,8 @@ def check_c15(ctx, job, top):
                                            f"{arr.mean(axis=0).tolist()}")
             if key not in volumes or not (float(volumes[key]) > 0):
                 ctx.fail("C15", "positive", f"size of {nd['resname']} is {volumes.get(key)}")
-            rt = spec["restypes"].get(nd["resname"])
+            mtype = next((m for m in spec["moltypes"] if m["name"] == mol.mol_name), {})
+            rt = mtype.get("restype_override", {}).get(nd["resname"]) or spec["restypes"].get(nd["resname"])
             is_user = nd["resname"] in user_templates
             if is_user:
                 ut = user_templates[nd["resname"]]
